@@ -325,7 +325,7 @@ class ExprMixin:
 
     def str_method(self, st, recv, name, args, node):
         s = recv.t
-        def a(i, ty=T.Str): return self.coerce(args[i], ty).t
+        def a(i, ty=T.Str): return self.coerce(args[i], ty, st, node).t
         if name == "startswith": return SV(T.Bool, z3.PrefixOf(a(0), s))
         if name == "endswith": return SV(T.Bool, z3.SuffixOf(a(0), s))
         if name == "find":
